@@ -5,8 +5,8 @@ ENTRY = dict(
         title="Joint weights are exact above threshold, normalised, and unbiased in the tail",
         prop_file="Properties/C04.v",
         corr_files=["Corr/C04Corr.v"],
-        theorems=["c04_exact_complete", "c04_no_zero", "c04_count_sum", "c04_unbiased_partial", "c04_infinite",
-                  "c04_refuses", "c04_machine_refines_spec_fin", "c04_facts"],
+        theorems=["c04_exact_complete", "c04_no_zero", "c04_count_sum", "c04_unbiased", "c04_infinite",
+                  "c04_refuses", "c04_machine_refines_spec", "c04_final_sort", "c04_facts"],
         allowed_axioms=[],
         facts=["nonzero_atol"],
         harness="c04",
